@@ -53,9 +53,10 @@ type StagedConfig struct {
 }
 
 type Staged struct {
-	Configs []*StagedConfig
-	TS      *TSStaged
-	Errs    []string
+	thorough bool
+	Configs  []*StagedConfig
+	TS       *TSStaged
+	Errs     []string
 }
 
 func (s *Staged) Summary() interface{} {
@@ -79,7 +80,7 @@ func (c *Ctx) GetStaged() *Staged {
 	if c.stage != nil {
 		return c.stage
 	}
-	st := &Staged{}
+	st := &Staged{thorough: c.Tier == "thorough"}
 	c.stage = st
 	entry := c.Func("Builder", "", "TemplateGenFromString")
 	wf := c.Func("Builder", "TemplateBuilder", "WriteFile")
